@@ -652,7 +652,15 @@ func (t *fltTr) readLoader(path string) (*flt_loadTables, error) {
 	if nb == nil {
 		return nil, fmt.Errorf("newBinaryExprFilter not found")
 	}
-	b = nb.Body.List
+	// statements that only record which variables the filter mentions (for the bound-variable check) do not
+	// take part in building the closure
+	b = nil
+	for _, st := range nb.Body.List {
+		if t.text(st) == "for _, operand := range filter.Args { if operand.HasVar() { info.Vars[operand.Value.(string)] = struct{}{} } }" {
+			continue
+		}
+		b = append(b, st)
+	}
 	if len(b) != 12 {
 		return nil, t.errf(nb, "newBinaryExprFilter: expected 12 top-level statements, got %d", len(b))
 	}
